@@ -11,7 +11,9 @@ Tie of the real-valued model (Model/SphereM.v) to /repo on every run:
      `interval with (i_prec 80)` after the reduction lemmas of Corr/SphereK.v (inputs and
      outputs as exact rationals of the floats).
 In addition the laws of the property are evaluated numerically on the implementation's own
-answers (oracle), so that a broken tie becomes a concrete failing input.
+answers (oracle), so that a broken tie becomes a concrete failing input.  Two oracle-only families: gen_meridian (pairs on
+one meridian circle, incl. routes over either pole; unit-vector azimuth reference + round trip) and gen_form_cases (every
+input form of the Coordinate constructor through every entry point; answers identical to the float-built twins).
 """
 import json
 import math
@@ -19,6 +21,7 @@ import os
 import re
 import sys
 from concurrent.futures import ThreadPoolExecutor
+from decimal import Decimal
 from fractions import Fraction
 
 sys.path.insert(0, os.path.dirname(os.path.abspath(__file__)))
@@ -29,6 +32,7 @@ from geostructures.calc import (bearing_degrees, haversine_distance_meters, inve
                                 inverse_haversine_radians, rotate_coordinates)
 from geostructures._geometry import dist_xyz_meters      # noqa: E402
 from geostructures.coordinates import Coordinate          # noqa: E402
+import numpy as np                                        # noqa: E402
 
 R_EARTH = 6371000.0
 HALF = math.pi * R_EARTH
@@ -68,14 +72,16 @@ def canon(lon, lat):
     return (c.longitude, c.latitude)
 
 
-def impl_pair(p, q):
-    a, b = C(p), C(q)
+def impl_pair(p, q, mk=C):
+    """mk builds the Coordinate object for a canonical position (default: from its two floats; the input-form
+    family passes makers that build the same position from strings / WKT text / with Z and M)"""
+    a, b = mk(p), mk(q)
     return {
         'h': guarded(lambda: haversine_distance_meters(a, b)),
         'h_rev': guarded(lambda: haversine_distance_meters(b, a)),
         'b5': guarded(lambda: bearing_degrees(a, b)),
         'b13': guarded(lambda: bearing_degrees(a, b, precision=13)),
-        'xyz': guarded(lambda: dist_xyz_meters(Coordinate(*p), Coordinate(*q))),
+        'xyz': guarded(lambda: dist_xyz_meters(mk(p), mk(q))),
         # the same two objects again after other queries have run on them (unit vectors evaluated, bearing taken):
         # the distance is a function of the two positions, not of what was asked before
         'h_after': guarded(lambda: (a.xyz, b.xyz, dist_xyz_meters(a, b), haversine_distance_meters(a, b))[-1]),
@@ -83,17 +89,17 @@ def impl_pair(p, q):
     }
 
 
-def impl_dest(p, b, d):
+def impl_dest(p, b, d, mk=C):
     def run(f, ang):
-        c = f(C(p), ang, d)
+        c = f(mk(p), ang, d)
         return (c.longitude, c.latitude)
     return {'deg': guarded(lambda: run(inverse_haversine_degrees, b)),
             'rad': guarded(lambda: run(inverse_haversine_radians, math.radians(b)))}
 
 
-def impl_rot(o, p, a):
+def impl_rot(o, p, a, mk=C):
     def run():
-        c = rotate_coordinates([C(p)], C(o), a)[0]
+        c = rotate_coordinates([mk(p)], mk(o), a)[0]
         return (c.longitude, c.latitude)
     return guarded(run)
 
@@ -128,6 +134,24 @@ def great_circle_ref(p, q):
 
 def ref_bearing(x, y):
     return math.degrees(math.atan2(x, y)) % 360
+
+
+def unit(p):
+    l, f = math.radians(p[0]), math.radians(p[1])
+    return (math.cos(f) * math.cos(l), math.cos(f) * math.sin(l), math.sin(f))
+
+
+def azimuth_vec(p, q):
+    """independent azimuth reference on unit vectors: the destination's unit vector projected on the local north
+    and east vectors of the start (no longitude difference is formed, no formula shared with bearing_degrees).
+    Returns (azimuth in [0,360), |projection| = sin of the angular distance: the conditioning of the azimuth)"""
+    l, f = math.radians(p[0]), math.radians(p[1])
+    n = (-math.sin(f) * math.cos(l), -math.sin(f) * math.sin(l), math.cos(f))
+    e = (-math.sin(l), math.cos(l), 0.0)
+    v = unit(q)
+    vn = math.fsum(v[i] * n[i] for i in range(3))
+    ve = math.fsum(v[i] * e[i] for i in range(3))
+    return math.degrees(math.atan2(ve, vn)) % 360, math.hypot(ve, vn)
 
 
 def cdiff(a, b):
@@ -446,6 +470,281 @@ def gen_rots(rng, n):
     return out
 
 
+
+# ------------------------------------------------------------------ family M: pairs on one meridian circle
+MER_DLON = (0.0, 180.0, -180.0, 360.0, -360.0, 540.0, -540.0, 720.0)
+
+
+def gen_meridian(rng, n):
+    """Mechanism class: code paths that treat 'both points on one meridian circle' (longitude difference 0, +-180,
+    360k - exactly, or up to the rounding of lon+180) specially: short cuts that decide north/south from the
+    latitude ordering, sin(pi) residues, the antimeridian un-wrapping at |d_lon| = 180, pole handling.
+    Pairs (class, p, q): longitude of q = longitude of p + one of MER_DLON (written un-normalised, the constructor
+    folds it), latitudes in every ordering: q north / south of p, equal, both high on the same side (the short way
+    leads over that pole), mirrored (antipodal when the meridians are opposite) and mirrored +- 1e-6..10 deg,
+    either point at either pole, both poles, the equator."""
+    out = []
+
+    def lon1():
+        c = rng.random()
+        if c < 0.3:
+            return float(rng.randrange(-180, 180))
+        if c < 0.5:
+            return rng.randrange(-720, 720) / 4
+        if c < 0.7:
+            return float(dec_str(rng.randrange(-1800, 1800), 1))
+        if c < 0.8:
+            return rng.choice([0.0, -180.0, 90.0, -90.0, 180.0, 10.0, -170.0])
+        return rng.uniform(-180, 180)
+
+    def lat():
+        c = rng.random()
+        if c < 0.4:
+            return float(rng.randrange(-89, 90))
+        if c < 0.6:
+            return rng.randrange(-356, 357) / 4
+        return rng.uniform(-89.5, 89.5)
+
+    def lats(kind):
+        a, b = lat(), lat()
+        sgn = rng.choice([1, -1])
+        if kind == 'any':
+            return a, b
+        if kind == 'equal':
+            return a, a
+        if kind == 'high-same-side':
+            hi, lo = 90 - rng.uniform(0.5, 30), 90 - rng.uniform(0.5, 30)
+            return sgn * hi, sgn * lo
+        if kind == 'mirrored':
+            return a, -a
+        if kind == 'near-mirrored':
+            return a, max(-90.0, min(90.0, -a + rng.choice([1, -1]) * 10 ** rng.uniform(-6, 1)))
+        if kind == 'pole-start':
+            return sgn * 90.0, b
+        if kind == 'pole-end':
+            return a, sgn * 90.0
+        if kind == 'pole-pole':
+            return sgn * 90.0, rng.choice([1, -1]) * 90.0
+        if kind == 'equator':
+            return rng.choice([(0.0, b), (a, 0.0), (0.0, 0.0)])
+        raise AssertionError(kind)
+
+    kinds = ['any', 'any', 'equal', 'high-same-side', 'high-same-side', 'mirrored', 'near-mirrored', 'pole-start',
+             'pole-end', 'pole-pole', 'equator']
+    fixed = [((0.0, 80.0), (180.0, 75.0)), ((0.0, 75.0), (180.0, 80.0)), ((-90.0, -80.0), (90.0, -75.0)),
+             ((-170.0, -75.0), (10.0, -40.0)), ((0.0, 10.0), (180.0, 20.0)), ((0.0, 10.0), (-180.0, -20.0)),
+             ((25.0, 90.0), (-155.0, 10.0)), ((25.0, -90.0), (25.0, 10.0)), ((25.0, 10.0), (-155.0, 90.0))]
+    for p, q in fixed:
+        out.append(('fixed', p, q))
+    i = 0
+    while len(out) < n:
+        kind = kinds[i % len(kinds)]
+        dl = MER_DLON[(i // len(kinds)) % len(MER_DLON)]
+        i += 1
+        l1 = lon1()
+        f1, f2 = lats(kind)
+        out.append((kind, (l1, f1), (l1 + dl, f2)))
+    res = []
+    for kind, p, q in out:
+        p, q = canon(*p), canon(*q)
+        d = q[0] - p[0]
+        res.append((('same' if d == 0 else 'opposite' if abs(d) == 180 else 'rounded') + ':' + kind, p, q))
+    return res
+
+
+# ------------------------------------------------------------------ family F: every input form the constructor accepts
+def dec_str(n, k):
+    """the integer n * 10^-k written as a plain decimal with exactly k places"""
+    sg, n = ('-' if n < 0 else ''), abs(n)
+    return f'{sg}{n}' if k == 0 else f'{sg}{n // 10 ** k}.{n % 10 ** k:0{k}d}'
+
+
+def _zeros(s):
+    return s + '000' if '.' in s else s + '.000'
+
+
+def _expo(s):
+    return f'{Decimal(s):e}'
+
+
+def _plus(s):
+    return s if s.startswith('-') else '+' + s
+
+
+def _plain(s):
+    return 'e' not in s.lower()
+
+
+def _integral(s):
+    return _plain(s) and '.' not in s
+
+
+# (name, applicable(slon, slat), build(slon, slat, z, m) -> Coordinate, carries Z/M)
+FORMS = [
+    ('int', lambda a, b: _integral(a) and _integral(b), lambda a, b, z, m: Coordinate(int(a), int(b)), False),
+    ('int-float', lambda a, b: _integral(a), lambda a, b, z, m: Coordinate(int(a), float(b)), False),
+    ('numpy-float64', lambda a, b: True, lambda a, b, z, m: Coordinate(np.float64(a), np.float64(b)), False),
+    ('str', lambda a, b: True, lambda a, b, z, m: Coordinate(a, b), False),
+    ('str-float', lambda a, b: True, lambda a, b, z, m: Coordinate(a, float(b)), False),
+    ('float-str', lambda a, b: True, lambda a, b, z, m: Coordinate(float(a), b), False),
+    ('str-trailing-zeros', lambda a, b: _plain(a) and _plain(b), lambda a, b, z, m: Coordinate(_zeros(a), _zeros(b)), False),
+    ('str-exponent', lambda a, b: _plain(a) and _plain(b), lambda a, b, z, m: Coordinate(_expo(a), _expo(b)), False),
+    ('str-plus-sign', lambda a, b: True, lambda a, b, z, m: Coordinate(_plus(a), _plus(b)), False),
+    ('wkt', lambda a, b: True, lambda a, b, z, m: Coordinate.from_wkt(f'{a} {b}'), False),
+    ('wkt-trailing-zeros', lambda a, b: _plain(a) and _plain(b),
+     lambda a, b, z, m: Coordinate.from_wkt(f'{_zeros(a)} {_zeros(b)}'), False),
+    ('float-z', lambda a, b: True, lambda a, b, z, m: Coordinate(float(a), float(b), z=z), True),
+    ('float-zm', lambda a, b: True, lambda a, b, z, m: Coordinate(float(a), float(b), z=z, m=m), True),
+    ('float-m', lambda a, b: True, lambda a, b, z, m: Coordinate(float(a), float(b), m=m), True),
+    ('str-zm', lambda a, b: True, lambda a, b, z, m: Coordinate(a, b, z=z, m=m), True),
+    ('wkt-z', lambda a, b: True, lambda a, b, z, m: Coordinate.from_wkt(f'{a} {b} {z!r}'), True),
+    ('wkt-zm', lambda a, b: True, lambda a, b, z, m: Coordinate.from_wkt(f'{a} {b} {z!r} {m!r}'), True),
+    ('wkt-mz', lambda a, b: True, lambda a, b, z, m: Coordinate.from_wkt(f'{a} {b} {m!r} {z!r}', zm_order='MZ'), True),
+    ('wkt-m', lambda a, b: True, lambda a, b, z, m: Coordinate.from_wkt(f'{a} {b} {m!r}', zm_order='M'), True),
+]
+
+
+def gen_form_cases(rng, n):
+    """Mechanism class: anything the library remembers about HOW a coordinate was written (string vs number, the
+    number of decimals, WKT text, attached Z/M) leaking into the calculator's answers.
+    A case is a set of positions written as decimal TEXT (k = 0..8 places, or the 17-digit repr of a float;
+    sometimes a longitude outside [-180,180) that the constructor folds): a pair p,q anywhere, an origin o within
+    5 degrees of p (30% next to the antimeridian), a bearing/distance, a rotation angle, Z/M values."""
+    out = []
+    while len(out) < n:
+        k = rng.choice([0, 0, 1, 1, 2, 2, 3, 3, 4, 5, 6, 8, 'repr'])
+
+        def text(lo, hi, k=k):
+            if k == 'repr':
+                return repr(rng.uniform(lo, hi))
+            return dec_str(rng.randrange(int(lo * 10 ** k), int(hi * 10 ** k) + 1), k)
+
+        if rng.random() < 0.3:
+            olon = rng.choice([1, -1]) * (180 - rng.uniform(0, 2))
+            so = (repr(olon) if k == 'repr' else dec_str(round(olon * 10 ** k), k), text(-60, 60))
+        else:
+            so = (text(-175, 175), text(-60, 60))
+        fo = (float(so[0]), float(so[1]))
+        sp = (text(fo[0] - 5, fo[0] + 5), text(fo[1] - 5, fo[1] + 5))
+        sq = (text(-180, 180) if rng.random() < 0.85 else text(-400, 400), text(-90, 90))
+        b = rng.choice([rng.uniform(0, 360)] * 4 + [0.0, 90.0, 180.0, 270.0, float(rng.randrange(0, 360))])
+        d = 10 ** rng.uniform(0, math.log10(5e6))
+        a = rng.choice([rng.uniform(-360, 360)] * 4 + [90.0, -90.0, 180.0, 1.0, float(rng.randrange(-360, 361))])
+        z, m = rng.choice([0.0, 12.5, -3.0, rng.uniform(-100, 9000)]), rng.choice([0.0, 1.0, rng.uniform(0, 1e6)])
+        out.append({'text': {'o': so, 'p': sp, 'q': sq}, 'bearing': b, 'distance': d, 'angle': a, 'z': z, 'm': m})
+    return out
+
+
+def full(c):
+    return (c.longitude, c.latitude, c.z, c.m)
+
+
+def form_obs(mk, o, p, q, b, d, a, a2):
+    """every calculator entry point on objects built by mk, results as plain tuples (lon, lat, z, m) / floats"""
+    def chain():
+        first = rotate_coordinates([mk(p)], mk(o), a)
+        return full(rotate_coordinates(first, mk(o), a2)[0])          # the library's own object is passed on
+    return {
+        'haversine': guarded(lambda: haversine_distance_meters(mk(p), mk(q))),
+        'haversine_rev': guarded(lambda: haversine_distance_meters(mk(q), mk(p))),
+        'bearing5': guarded(lambda: bearing_degrees(mk(p), mk(q))),
+        'bearing13': guarded(lambda: bearing_degrees(mk(p), mk(q), precision=13)),
+        'bearing13_rev': guarded(lambda: bearing_degrees(mk(q), mk(p), precision=13)),
+        'dist_xyz': guarded(lambda: dist_xyz_meters(mk(p), mk(q))),
+        'dest_deg': guarded(lambda: full(inverse_haversine_degrees(mk(p), b, d))),
+        'dest_rad': guarded(lambda: full(inverse_haversine_radians(mk(p), math.radians(b), d))),
+        'rot': guarded(lambda: full(rotate_coordinates([mk(p)], mk(o), a)[0])),
+        'rot_list': guarded(lambda: [full(c) for c in rotate_coordinates([mk(q), mk(p), mk(o), mk(p)], mk(o), a)]),
+        'rot_0': guarded(lambda: full(rotate_coordinates([mk(p)], mk(o), 0)[0])),
+        'rot_sum': guarded(lambda: full(rotate_coordinates([mk(p)], mk(o), a + a2)[0])),
+        'rot_chain': guarded(chain),
+    }
+
+
+def lonlat(v):
+    """drop Z/M from a form_obs value"""
+    if v[0] != 'Ok':
+        return v
+    x = v[1]
+    if isinstance(x, list):
+        return ('Ok', [t[:2] for t in x])
+    return ('Ok', x[:2]) if isinstance(x, tuple) else v
+
+
+def run_form_case(case, rng, stats, count):
+    """list of violations (dicts) of one input-form case"""
+    txt = case['text']
+    fl = {k: (float(v[0]), float(v[1])) for k, v in txt.items()}
+    pos = {k: canon(*v) for k, v in fl.items()}
+    o, p, q = pos['o'], pos['p'], pos['q']
+    b, d, a, z, m = case['bearing'], case['distance'], case['angle'], case['z'], case['m']
+    a2 = rng.uniform(-180, 180)
+    back = {}                                         # canonical position -> its text (last wins when two coincide)
+    for k in ('q', 'o', 'p'):
+        back[pos[k]] = txt[k]
+    if len(back) < 3:
+        stats['form-case-coinciding-positions'] = stats.get('form-case-coinciding-positions', 0) + 1
+
+    def maker(build, zz, mm):
+        def mk(pt):
+            t = back.get(pt)
+            return build(t[0], t[1], zz, mm) if t is not None else Coordinate(pt[0], pt[1])
+        return mk
+
+    def twin(zz, mm):
+        def mk(pt):
+            t = back.get(pt)
+            return Coordinate(float(t[0]), float(t[1]), z=zz, m=mm) if t is not None else Coordinate(pt[0], pt[1])
+        return mk
+
+    out = []
+    base = form_obs(twin(None, None), o, p, q, b, d, a, a2)
+    base_z = {}
+    forms = [f for f in FORMS if all(f[1](*txt[k]) for k in txt)]
+    mixed = rng.choice(forms)                          # one mixed case: only p in that form, q and o float-built
+    todo = [(f, None) for f in forms] + [(mixed, 'p-only')]
+    for (name, _, build, has_zm), only in todo:
+        mk = maker(build, z, m)
+        if only:
+            inner, name = mk, name + '(p only)'
+            mk = lambda pt, inner=inner: inner(pt) if pt == p else Coordinate(pt[0], pt[1])      # noqa: E731
+        count('form:' + name)
+        mcase = dict(case, k='form', form=name, o=o, p=p, q=q, angle2=a2)
+        try:
+            got = form_obs(mk, o, p, q, b, d, a, a2)
+        except Exception as e:        # noqa  (a form the constructor is declared to accept must build)
+            out.append(dict(mcase, clause='no_exception:form', detail=f'building/using the {name} form raised {type(e).__name__}: {e}'))
+            continue
+        for key in got:
+            if lonlat(got[key]) != lonlat(base[key]):
+                out.append(dict(mcase, clause='answer_depends_on_input_form:' + key, entry=key,
+                                detail=f'{key} on coordinates written as {name} {txt!r}: {got[key][1]!r}; on the float-built '
+                                       f'twins {fl!r}: {base[key][1]!r}'))
+        if has_zm and not only:
+            # against the float-built twin carrying the same Z/M as the form actually stored
+            c = build(txt['p'][0], txt['p'][1], z, m)
+            sig = (c.z, c.m)
+            if sig not in base_z:
+                base_z[sig] = form_obs(twin(*sig), o, p, q, b, d, a, a2)
+            for key in got:
+                if got[key] != base_z[sig][key]:
+                    out.append(dict(mcase, clause='answer_depends_on_input_form:' + key, entry=key,
+                                    detail=f'{key} on {name} {txt!r} z={c.z!r} m={c.m!r}: {got[key][1]!r}; float-built twins with '
+                                           f'the same z/m: {base_z[sig][key][1]!r}'))
+        # the laws on the answers obtained from these objects
+        obs = impl_pair(p, q, mk)
+        mp = dict(mcase, obs={k_: v[1] for k_, v in obs.items()})
+        for clause, detail in oracle_pair(p, q, obs, rng, stats) + oracle_roundtrip(p, q, obs, stats, mk):
+            out.append(dict(mp, clause=clause, detail=detail))
+        dobs = impl_dest(p, b, d, mk)
+        for clause, detail in oracle_dest(p, b, d, dobs, stats, mk):
+            out.append(dict(mcase, obs={k_: v[1] for k_, v in dobs.items()}, clause=clause, detail=detail))
+        robs = impl_rot(o, p, a, mk)
+        for clause, detail in oracle_rot(o, p, a, robs, rng, stats, mk):
+            out.append(dict(mcase, obs=robs[1], clause=clause, detail=detail))
+    return out
+
+
 # ------------------------------------------------------------------ the property evaluated on the implementation (oracle)
 def oracle_pair(p, q, obs, rng, stats):
     """list of (clause, detail) violated by the implementation's own answers on this pair"""
@@ -494,17 +793,60 @@ def oracle_pair(p, q, obs, rng, stats):
             bad.append(('bearing_is_azimuth', f'bearing={b13!r} but the initial azimuth is {rb!r}'))
         if cdiff(b5, rb) > tb + 5.01e-6:
             bad.append(('bearing_is_azimuth', f'rounded bearing={b5!r} but the initial azimuth is {rb!r}'))
+        # second, formula-independent reference (unit vectors; the products cancel to ~1e-16 absolute)
+        rv, hv = azimuth_vec(p, q)
+        if hv >= 1e-9 and cdiff(b13, rv) > 1e-8 + 1e-12 / hv:
+            bad.append(('bearing_is_azimuth', f'bearing={b13!r} but the azimuth of the destination\'s unit vector in the '
+                                              f'north/east frame of the start is {rv!r}'))
     return bad
 
 
-def oracle_dest(p, b, d, obs, stats):
+ASIN_DOMAIN = []
+
+
+def oracle_roundtrip(p, q, obs, stats, mk=C):
+    """bearing - distance - destination round trip: travelling haversine(p,q) from p on bearing(p,q) ends at q
+    (2 cm + the 1e-7 deg rounding of the destination + float conditioning next to the antipode / a pole)"""
+    if obs['h'][0] != 'Ok' or obs['b13'][0] != 'Ok':
+        return []
+    h, b13 = obs['h'][1], obs['b13'][1]
+    _, hv = azimuth_vec(p, q)
+    if hv < 1e-9:                                  # identical or antipodal: no azimuth
+        stats['roundtrip-azimuth-undefined'] = stats.get('roundtrip-azimuth-undefined', 0) + 1
+        return []
+    if abs(p[1]) == 90:                            # inverse_haversine from a pole: longitude is atan2(noise, noise)
+        stats['roundtrip-from-pole(no bearing)'] = stats.get('roundtrip-from-pole(no bearing)', 0) + 1
+        return []
+    got = guarded(lambda: inverse_haversine_degrees(mk(p), b13, h))
+    if got[0] != 'Ok':
+        if got[1] == 'ValueError' and HALF / 2 - abs(R_EARTH * math.radians(p[1]) + h * math.cos(math.radians(b13))) < 0.5 \
+                and min(cdiff(b13, 0), cdiff(b13, 180)) < 1e-6:
+            # REPORTED (unchanged code): travelling exactly onto a pole, the asin argument rounds to 1 + 2^-52 and
+            # math.asin raises.  Counted, first input kept for the coverage record; see main(): KNOWN-FINDING when
+            # KNOWN_FINDINGS.json lists signature dest_onto_pole_asin_domain
+            stats['roundtrip-onto-pole-asin-domain'] = stats.get('roundtrip-onto-pole-asin-domain', 0) + 1
+            ASIN_DOMAIN.append({'p': p, 'bearing': b13, 'distance': h})
+            return []
+        return [('roundtrip', f'inverse_haversine_degrees raised {got[1]}')]
+    dd = (got[1].longitude, got[1].latitude)
+    off = great_circle_ref(dd, q)[0]
+    colat = math.radians(90 - abs(dd[1]))
+    colat_p = math.radians(90 - abs(p[1]))       # a start within metres of a pole: its cos(lat) carries ~1e-16 absolute noise
+    tol = (0.02 + 2 * dist_tol(p, q) + R_EARTH * 4.5e-16 / max(colat, 1e-9) + R_EARTH * 4.5e-16 / max(colat_p, 1e-9)
+           + R_EARTH * math.radians(1e-8 * hv + 1e-12))
+    if off > tol:
+        return [('roundtrip', f'travelling d(p,q)={h!r} m from p on bearing(p,q)={b13!r} ends at {dd!r}, {off!r} m from q')]
+    return []
+
+
+def oracle_dest(p, b, d, obs, stats, mk=C):
     bad = []
     if obs['deg'][0] != 'Ok' or obs['rad'][0] != 'Ok':
         return [('dest', f'raised {obs["deg"]} {obs["rad"]}')]
     dd, dr = obs['deg'][1], obs['rad'][1]
     if dd != dr:
         bad.append(('deg_rad_same', f'degrees entry {dd!r} radians entry {dr!r}'))
-    back = haversine_distance_meters(C(p), C(dd))
+    back = haversine_distance_meters(mk(p), C(dd))
     # asin loses the colatitude digits next to a pole (d(asin)/dx = 1/cos(lat)): a destination within a few
     # metres of a pole is off by up to ~10 cm in floats; the 2 cm figure is checked with that allowance
     colat = math.radians(90 - abs(dd[1]))
@@ -528,7 +870,7 @@ def oracle_dest(p, b, d, obs, stats):
     if abs(p[1]) > 89.9 or abs(dd[1]) > 89.9999 or math.sin(r) * R_EARTH < 0.5:
         stats['dest-bearing-illconditioned'] = stats.get('dest-bearing-illconditioned', 0) + 1
     else:
-        bb = bearing_degrees(C(p), C(dd), precision=13)
+        bb = bearing_degrees(mk(p), C(dd), precision=13)
         tolb = math.degrees(0.02 / (R_EARTH * math.sin(r))) + 1e-8
         if cdiff(bb, b) > tolb:
             bad.append(('dest_bearing', f'requested bearing {b!r}, initial bearing to the destination is {bb!r}'))
@@ -544,7 +886,7 @@ def unwrapped(o, p):
     return lw
 
 
-def oracle_rot(o, p, a, out, rng, stats):
+def oracle_rot(o, p, a, out, rng, stats, mk=C):
     bad = []
     if out[0] != 'Ok':
         return [('rot', f'raised {out[1]}')]
@@ -567,10 +909,21 @@ def oracle_rot(o, p, a, out, rng, stats):
         bad.append(('rot_isometry', f'planar distance to the origin {math.hypot(dx, dy)!r} -> {math.hypot(rx, ry)!r}'))
     if a == 0 and (abs(rx - dx) > 1e-12 * scale or abs(ry - dy) > 1e-12 * scale):
         bad.append(('rot_zero', f'rotation by 0 moved {p!r} to {r!r}'))
+    for turn in (0.0, 360.0):
+        r0 = impl_rot(o, p, turn, mk)
+        if r0[0] != 'Ok':
+            bad.append(('rot_zero', f'rotation by {turn!r} raised {r0[1]}'))
+        elif (abs((r0[1][0] - o[0] - dx + 180) % 360 - 180) > (1e-12 if turn == 0 else 1e-9) * scale
+              or abs(r0[1][1] - o[1] - dy) > (1e-12 if turn == 0 else 1e-9) * scale):
+            bad.append(('rot_zero', f'rotation by {turn!r} moved {p!r} to {r0[1]!r}'))
     b = rng.uniform(-180, 180)
-    r2 = impl_rot(o, r, b)
-    r12 = impl_rot(o, p, a + b)
-    if r2[0] == 'Ok' and r12[0] == 'Ok':
+    r2 = impl_rot(o, r, b, mk)        # r is the implementation's own (float-built) answer, the origin is as given
+    r12 = impl_rot(o, p, a + b, mk)
+    if r[0] == -180 and o[0] > 0:
+        # the first rotation landed exactly on longitude 180 (integer offsets, quarter turns), stored as -180: the
+        # second step is the D34 input (known finding, see above)
+        stats['rot-unwrap-180-quirk(chained)'] = stats.get('rot-unwrap-180-quirk(chained)', 0) + 1
+    elif r2[0] == 'Ok' and r12[0] == 'Ok':
         if cdiff(r2[1][0], r12[1][0]) > 1e-9 * scale or abs(r2[1][1] - r12[1][1]) > 1e-9 * scale:
             # only meaningful when neither result was folded over a pole
             br = math.radians(a + b)
@@ -594,8 +947,10 @@ def main():
     quick = ck.tier == 'quick'
     n_pairs_k, n_dest_k, n_rot_k = (44, 36, 14) if quick else (400, 300, 100)
     n_pairs_o, n_dest_o, n_rot_o = (3000, 2000, 500) if quick else (60000, 40000, 6000)
+    n_mer_k, n_mer_o, n_form_o = (8, 1500, 120) if quick else (60, 30000, 2500)
     if not geneq_ok:                       # a translator lemma broke: search harder for a concrete failing input
         n_pairs_o, n_dest_o, n_rot_o = n_pairs_o * 10, n_dest_o * 10, n_rot_o * 4
+        n_mer_o, n_form_o = n_mer_o * 10, n_form_o * 4
 
     lemmas, meta, skipped, stats = [], {}, {}, {}
     violations = []
@@ -621,7 +976,7 @@ def main():
         if p != q:
             nontrivial.add((p, q))
         m = {'k': 'pair', 'class': cls, 'p': p, 'q': q, 'obs': {k: v[1] for k, v in obs.items()}}
-        for clause, detail in oracle_pair(p, q, obs, rng, stats):
+        for clause, detail in oracle_pair(p, q, obs, rng, stats) + oracle_roundtrip(p, q, obs, stats):
             violations.append(dict(m, clause=clause, detail=detail))
         if obs['h_after'] != obs['h'] or obs['h_rev_after'] != obs['h_rev']:
             violations.append(dict(m, clause='dist_is_a_function_of_the_positions',
@@ -635,6 +990,26 @@ def main():
             addk('dist_xyz', k_xyz(f'k_x_{i}', p, q, obs['xyz'][1]), m)
             if i % 3 == 0:
                 addk('dist_xyz_direct', k_xyz_direct(f'k_xd_{i}', p, q, obs['xyz'][1]), m)
+    # ---- pairs on one meridian circle (d_lon = 0, +-180, 360k), every latitude ordering, poles
+    mers = gen_meridian(rng, n_mer_o)
+    for i, (cls, p, q) in enumerate(mers):
+        obs = impl_pair(p, q)
+        ck.count('meridian:' + cls)
+        if p != q:
+            nontrivial.add((p, q))
+        m = {'k': 'pair', 'class': 'meridian:' + cls, 'p': p, 'q': q, 'obs': {k: v[1] for k, v in obs.items()}}
+        for clause, detail in oracle_pair(p, q, obs, rng, stats) + oracle_roundtrip(p, q, obs, stats):
+            violations.append(dict(m, clause=clause, detail=detail))
+        if i < n_mer_k and all(v[0] == 'Ok' for v in obs.values()):
+            addk('hdist', k_hdist(f'k_mh_{i}', p, q, obs['h'][1]), m)
+            addk('bearing13', k_bearing(f'k_mb_{i}', p, q, obs['b13'][1], False), m)
+            addk('dist_xyz', k_xyz(f'k_mx_{i}', p, q, obs['xyz'][1]), m)
+    # ---- every input form of the constructor through every entry point
+    forms = gen_form_cases(rng, n_form_o)
+    for case in forms:
+        got = run_form_case(case, rng, stats, ck.count)
+        violations.extend(got)
+        nontrivial.add(json.dumps(case['text'], sort_keys=True))
     # ---- destinations
     dests = gen_dests(rng, n_dest_o)
     for i, (cls, p, b, d) in enumerate(dests):
@@ -675,10 +1050,22 @@ def main():
             if reproduces:
                 ck.known(f)
 
+    if ASIN_DOMAIN:
+        ck.cov['dest_onto_pole_asin_domain'] = {'count': len(ASIN_DOMAIN), 'first': ASIN_DOMAIN[0],
+                                                'note': 'inverse_haversine raises ValueError (asin argument 1+2^-52) when the '
+                                                        'destination is a pole; reported, excluded from the round trip'}
+    for f in ck.findings:
+        if f.get('status') == 'open' and f.get('signature') == 'dest_onto_pole_asin_domain':
+            fr = f['replay']
+            got = guarded(lambda: inverse_haversine_degrees(C(canon(*fr['p'])), float(fr['bearing']), float(fr['distance'])))
+            if got == ('Err', 'ValueError'):
+                ck.known(f)
+
     per_file = max(8, -(-len(lemmas) // 14))
     badk, broken = run_lemmas(ck, 'sphere', lemmas, per_file)
 
-    ck.cov['evaluations'] = len(pairs) + len(dests) + len(rots)
+    ck.cov['evaluations'] = len(pairs) + len(dests) + len(rots) + len(mers) + len(forms)
+    ck.cov['input_forms'] = [f[0] for f in FORMS]
     ck.cov['interval_lemmas'] = len(lemmas)
     ck.cov['interval_lemmas_by_kind'] = {}
     for nm, _ in lemmas:
@@ -717,8 +1104,15 @@ def main():
              'same meridian / same parallel + fixed corpus incl. exact antipodes, poles, the 180->-180 rule and the D11 input), '
              'destinations (bearings 0..360 incl. the axes, distances 1 m..5000 km log-uniform, starts near the antimeridian and the '
              'poles), rotations (origins incl. +-180, angles incl. 0/90/180/270/360). Every case goes through the numeric oracle; the '
-             'first n of each stream are also proved against the model by `interval`. non-trivial = distinct inputs with p <> q '
-             '(pairs) / all (dest, rot)',
+             'first n of each stream are also proved against the model by `interval`. Meridian family: pairs whose longitudes '
+             'differ by 0, +-180, 360k (exact grids and float sums) x every latitude ordering (north/south of, equal, both high on '
+             'one side = over that pole, mirrored = antipodal, near-mirrored, either/both poles, equator), judged by a unit-vector '
+             'azimuth reference and the bearing-distance-destination round trip (which every pair of the pair stream also gets). '
+             'Input-form family: positions written as decimal text (0..8 places / 17-digit repr / out-of-range longitudes) built '
+             'in every form the constructor accepts (int, numpy float, str, mixed, trailing zeros, exponent, sign, from_wkt, Z/M by '
+             'keyword and by WKT order) through every entry point (incl. list rotation, chained rotation, rotation by 0): answers '
+             'equal to the float-built twins float for float, and the laws on them. non-trivial = distinct inputs with p <> q '
+             '(pairs) / all (dest, rot, form cases)',
         assumptions=['float -> real abstraction: IEEE rounding and libm are not modelled; tolerances: interval tie 1e-6 m (+ conditioning '
                      'near antipodes), 1e-9 deg bearings (+5e-6 for the rounded value), 5.1e-8 deg destinations, 1e-9 deg rotations',
                      'round() is modelled as floor(x*10^p+1/2)/10^p (ties of the nudged value excluded)',
@@ -744,6 +1138,14 @@ def replay(path):
         obs = impl_dest(p, m['bearing'], m['distance'])
         print('implementation now:', obs)
         print('property clauses violated now:', oracle_dest(p, m['bearing'], m['distance'], obs, {}))
+    elif k == 'form':
+        import random
+        case = {k_: m[k_] for k_ in ('text', 'bearing', 'distance', 'angle', 'z', 'm')}
+        case['text'] = {k_: tuple(v) for k_, v in case['text'].items()}
+        got = run_form_case(case, random.Random(0), {}, lambda c: None)
+        print(f'violations of this input-form case now: {len(got)}')
+        for v in got[:12]:
+            print(' ', v['form'], v['clause'], '-', v['detail'])
     elif k == 'rot':
         import random
         o, p = tuple(m['o']), tuple(m['p'])
